@@ -209,6 +209,13 @@ func (e *Env) ident(name string) TVal {
 			}
 			return e.errf("local %s is not a term value", name)
 		}
+		for i := len(e.st.named) - 1; i >= 0; i-- {
+			nr := e.st.named[i]
+			if nr.name == name && (e.frameID() == 0 || nr.frame == e.frameID()) {
+				// a named local struct that lives on the heap: the name denotes the struct
+				return TVal{T: nr.ref, Ty: nr.typ}
+			}
+		}
 	}
 	if v, ok := e.params[name]; ok {
 		return v
@@ -349,6 +356,30 @@ func (e *Env) tr(x Expr) TVal {
 
 func (e *Env) field(n EField) TVal {
 	vc := e.ex.vc
+	// qualified identifier pkg.Name
+	if id, ok := n.X.(EIdent); ok {
+		_, bound := e.binds[id.Name]
+		_, isParam := e.params[id.Name]
+		isCell := e.useCells && e.st.cellByName(id.Name, e.frameID()) != nil
+		if !bound && !isParam && !isCell {
+			if _, isGhost := vc.prog.contracts.Ghosts[id.Name]; !isGhost {
+				if tp := vc.prog.pkgByName(id.Name); tp != nil {
+					obj := tp.Scope().Lookup(n.Name)
+					switch o := obj.(type) {
+					case *types.Const:
+						return e.constVal(o)
+					case *types.Var:
+						if sp := vc.prog.ssaPkg(tp); sp != nil {
+							if g, ok := sp.Members[n.Name].(*ssa.Global); ok {
+								return TVal{T: e.ex.globalTerm(e.st, g), Ty: o.Type()}
+							}
+						}
+					}
+					return e.errf("unknown object %s.%s", id.Name, n.Name)
+				}
+			}
+		}
+	}
 	b := e.tr(n.X)
 	if b.Ty == nil {
 		return e.errf("field %s of a value without Go type (%s)", n.Name, exprString(n.X))
@@ -726,6 +757,22 @@ func (e *Env) call(n ECall) TVal {
 		}
 		hn, hs := vc.boxHeap(es)
 		return TVal{T: Term{app("select", vc.heapGet(e.st, hn, hs).S, a.T.S), es}, Ty: pt.Elem()}
+	case "mark":
+		// instantiation hint: asserts the (otherwise unconstrained) trigger predicate
+		// qt_<sorts>(args), so universally quantified assumptions fire on this tuple
+		var as, sorts []string
+		for _, a := range n.Args {
+			v := e.tr(a)
+			as = append(as, v.T.S)
+			sorts = append(sorts, v.T.Sort)
+		}
+		qt := "qt"
+		for _, s := range sorts {
+			qt += "_" + sanitize(s)
+		}
+		vc.declareFun(qt, sorts, SBool)
+		e.st.assume(app(qt, as...))
+		return TVal{T: Term{"true", SBool}}
 	case "closed":
 		if !argc(1) {
 			return TVal{}
@@ -938,6 +985,11 @@ func (fi *foldInst) build(e *Env) {
 		all(fmt.Sprintf("(s %s) (k Int) (hi Int)", S)), S,
 		app(F, args("s")), comb(app(F, args(app("sq_sub_"+S, "s", "0", "k"))), app(F, args(app("sq_sub_"+S, "s", "k", "hi")))),
 		app(F, args(app("sq_sub_"+S, "s", "k", "hi"))), app(F, args("s")))
+	// prefix split: fold(s) = fold(s[:k]) (+) fold(s[k:])
+	fmt.Fprintf(&b, "(assert (forall (%s) (! (=> (and (<= 0 k) (<= k (sq_len_%s s))) (= %s %s)) :pattern (%s%s))))\n",
+		all(fmt.Sprintf("(s %s) (k Int)", S)), S,
+		app(F, args("s")), comb(app(F, args(app("sq_sub_"+S, "s", "0", "k"))), app(F, args(app("sq_sub_"+S, "s", "k", app("sq_len_"+S, "s"))))),
+		app(F, args(app("sq_sub_"+S, "s", "0", "k"))), "")
 	// reverse
 	fmt.Fprintf(&b, "(assert (forall (%s) (! (= %s %s) :pattern (%s))))\n", all(fmt.Sprintf("(s %s)", S)),
 		app(F, args(app("sq_rev_"+S, "s"))), app(F, args("s")), app(F, args(app("sq_rev_"+S, "s"))))
